@@ -2,7 +2,7 @@
 //! survive TileJSON::try_from -> as_string, and containers hand back the TileJSON they were given
 //! (zoom range and bounds only ever narrowed to the stored coverage).
 //!
-//! Library parts only; the served `tiles.json` part needs the server binary (see `server_phase`).
+//! The served `tiles.json` part runs against the server binary (see `server_phase`).
 
 use proptest::collection::vec;
 use proptest::prelude::*;
@@ -1086,23 +1086,243 @@ fn fixed_containers() -> Vec<CCase> {
 // served tiles.json
 // =======================================================================================
 
-// TODO(server part): the statement's last sentence (the tiles.json served for a source is valid
-// JSON carrying the metadata plus a tiles URL template and bounds/zoom consistent with the
-// coverage) needs the `versatiles serve` binary. Add phases here; `doc()`, `doc_model()`,
-// `check_document(ctx, want, got, Some(&coverage))` and `Target::fresh()` are meant to be reused
-// (the served document additionally has a `tiles` list, so strip/inspect that key first).
-fn server_phase(_check: &mut Check) {}
+// The statement's last sentence: the tiles.json served for a source is valid JSON carrying the
+// metadata plus a tiles URL template and bounds/zoom consistent with the coverage. Observed at
+// the `versatiles serve` binary over raw HTTP (`vt::server`).
+
+#[derive(Clone, Debug, Serialize, Deserialize)]
+struct SSource {
+	c: CCase,
+	/// None = the repository's writer, Some(seed) = the harness's independent encoder (the
+	/// document's text is stored verbatim)
+	enc: Option<u32>,
+	/// 0 `path[id]`, 1 `[id]path`, 2 `path#id`, 3 derived from the file name
+	id_style: u8,
+	id: u8,
+	/// Accept-Encoding of the two requests
+	accept: u8,
+}
+
+#[derive(Clone, Debug, Serialize, Deserialize)]
+struct SCase {
+	sources: Vec<SSource>,
+	fast: bool,
+}
+
+const SERVED_IDS: [&str; 5] = ["a", "osm", "my.id", "x-y_z", "T"];
+const SERVED_ACCEPT: [Option<&str>; 4] = [None, Some("gzip"), Some("br"), Some("gzip, deflate, br")];
+
+fn scase(max_entries: usize) -> BoxedStrategy<SCase> {
+	let src = (ccase(max_entries), proptest::option::weighted(0.4, any::<u32>()), 0u8..4, 0u8..SERVED_IDS.len() as u8, 0u8..SERVED_ACCEPT.len() as u8).prop_map(|(c, enc, id_style, id, accept)| SSource { c, enc, id_style, id, accept });
+	(vec(src, 1..=3), any::<bool>()).prop_map(|(sources, fast)| SCase { sources, fast }).boxed()
+}
+
+/// The set written by the harness's independent encoder (layout features from the seed), always
+/// with its metadata document stored verbatim and with a tight advertised coverage (a versatiles
+/// block index may advertise more than the tiles it holds; then the coverage the server narrows
+/// to would not be the one of the generated set).
+fn encode_with_document(set: &vt::model::TileSet, t: Target, seed: u32) -> Result<std::path::PathBuf, Fail> {
+	use vt::{codec, sources};
+	let g = t.fresh();
+	let path = g.0.clone();
+	std::mem::forget(g); // the caller guards the path
+	let r: Result<(), String> = match t {
+		Target::Versatiles => std::fs::write(&path, codec::versatiles::encode(set, &codec::versatiles::Layout { with_meta: true, tight_blocks: true, widen: 0, ..sources::layout_versatiles(seed) })).map_err(|e| e.to_string()),
+		Target::Pmtiles => std::fs::write(&path, codec::pmtiles::encode(set, &codec::pmtiles::Layout { with_meta: true, ..sources::layout_pmtiles(seed) }).0).map_err(|e| e.to_string()),
+		Target::Tar => {
+			let l = sources::layout_tar(seed);
+			std::fs::write(&path, codec::tar::encode(set, &codec::tar::Layout { meta_pos: l.meta_pos % 3, ..l })).map_err(|e| e.to_string())
+		}
+		Target::Directory => {
+			let l = sources::layout_dir(seed);
+			codec::dir::encode(set, &codec::dir::Layout { meta_name: l.meta_name % 3, ..l }, &path)
+		}
+	};
+	r.map_err(|e| Fail::new("harness:encode", format!("harness encoder failed: {e}")))?;
+	Ok(path)
+}
+
+fn oracle_served(case: &SCase, obs: &mut Obs) -> Result<(), Fail> {
+	use vt::server::{Exchange, Server};
+	struct Built {
+		id: String,
+		info: DocInfo,
+		cov: Coverage,
+		what: String,
+	}
+	let mut guards: Vec<TmpGuard> = vec![];
+	let mut built: Vec<Built> = vec![];
+	let mut args: Vec<String> = vec![];
+	if case.fast {
+		args.push("--fast".into());
+	}
+	for (i, s) in case.sources.iter().enumerate() {
+		let c = &s.c;
+		let info = doc_model(&c.doc);
+		let spec = tile_set(c, &info.text);
+		let set = spec.materialise();
+		let boxes = set.all_boxes();
+		let cov = Coverage {
+			zmin: *boxes.keys().next().expect("at least one level"),
+			zmax: *boxes.keys().next_back().expect("at least one level"),
+			boxes: boxes.iter().map(|(z, b)| [georef::lon(b.0 as f64, *z), georef::lat(b.3 as f64 + 1.0, *z), georef::lon(b.2 as f64 + 1.0, *z), georef::lat(b.1 as f64, *z)]).collect(),
+		};
+		let what = format!("{}/{}/{}", c.target.name(), c.comp.name(), if s.enc.is_some() { "harness-encoder" } else { "repo-writer" });
+		let path = match s.enc {
+			None => {
+				let g = c.target.fresh();
+				let p = g.0.to_str().expect("utf-8 temp path").to_string();
+				let mut source = MemReader::new(&set, "c17");
+				let r = guard(|| block_on(versatiles_container::write_to_filename(&mut source, &p))).map_err(|p| Fail::from_panic(&format!("writing {what}"), &p))?;
+				if let Err(e) = r {
+					fail!("container:write-failed", "{what}: write_to_filename fails: {}", short(&format!("{e:#}")));
+				}
+				let path = g.0.clone();
+				guards.push(g);
+				path
+			}
+			Some(seed) => {
+				let path = encode_with_document(&set, c.target, seed)?;
+				guards.push(TmpGuard(path.clone()));
+				path
+			}
+		};
+		let p = path.to_str().expect("utf-8 temp path").to_string();
+		let explicit = format!("{}{}", SERVED_IDS[s.id as usize % SERVED_IDS.len()], i);
+		let (arg, id) = match s.id_style % 4 {
+			0 => (format!("{p}[{explicit}]"), explicit),
+			1 => (format!("[{explicit}]{p}"), explicit),
+			2 => (format!("{p}#{explicit}"), explicit),
+			_ => (p.clone(), path.file_name().unwrap().to_str().unwrap().split('.').next().unwrap().to_string()),
+		};
+		args.push(arg);
+		built.push(Built { id, info, cov, what });
+	}
+	let mut server = Server::start(&args);
+
+	for (s, b) in case.sources.iter().zip(&built) {
+		let hdr: Vec<(&str, &str)> = match SERVED_ACCEPT[s.accept as usize % SERVED_ACCEPT.len()] {
+			Some(v) => vec![("Accept-Encoding", v)],
+			None => vec![],
+		};
+		for name in ["tiles.json", "meta.json"] {
+			let target = format!("/tiles/{}/{name}", b.id);
+			let ctx = format!("{} GET {target}", b.what);
+			let resp = match server.get(&target, &hdr) {
+				Exchange::Response(r) => r,
+				Exchange::Dropped(e) => fail!("served:connection-dropped", "{ctx}: no complete HTTP response ({e}); the server still answers /status"),
+			};
+			ensure_prop!(resp.status == 200, "served:status", "{ctx}: status {} instead of 200; {}", resp.status, resp.summary());
+			let body = resp.decoded_body().map_err(|e| Fail::new("served:output-not-json", format!("{ctx}: body does not decode per Content-Encoding: {e}")))?;
+			let text = String::from_utf8(body).map_err(|_| Fail::new("served:output-not-json", format!("{ctx}: body is not UTF-8")))?;
+			let got = parse_std("served", &ctx, &text)?;
+			let N::Obj(mut got) = got else {
+				fail!("served:not-an-object", "{ctx}: the served document is a {}", got.kind());
+			};
+			// the URL template
+			let prefix = format!("/tiles/{}/", b.id);
+			match got.remove("tiles") {
+				Some(N::Arr(list)) if !list.is_empty() => {
+					for t in &list {
+						let N::Str(t) = t else {
+							fail!("served:tiles-template", "{ctx}: an entry of `tiles` is a {}", t.kind());
+						};
+						ensure_prop!(t.starts_with(&prefix) && t.contains("{z}") && t.contains("{x}") && t.contains("{y}"), "served:tiles-template", "{ctx}: tiles entry {} does not start with {prefix} or lacks {{z}}/{{x}}/{{y}}", show_str(t));
+					}
+				}
+				other => fail!("served:tiles-template", "{ctx}: `tiles` is {} instead of a non-empty list", other.as_ref().map(show).unwrap_or("missing".into())),
+			}
+			// the server sets type, name and format itself: their values may differ from the
+			// document's, the keys must be there if the document had them
+			let mut want = b.info.want.clone();
+			want.remove("tiles");
+			for k in ["type", "name", "format"] {
+				let had = want.remove(k).is_some();
+				let has = got.remove(k).is_some();
+				ensure_prop!(has || !had, "served:key-dropped", "{ctx}: key {k} of the document is missing from the served document");
+			}
+			// every other key of the document unchanged; bounds / minzoom / maxzoom only narrowed
+			// towards the coverage. Keys the server adds on its own are not the statement's concern
+			// ("carries this metadata plus …"): they are left out of the comparison.
+			got.retain(|k, _| want.contains_key(k) || k == "bounds" || k == "minzoom" || k == "maxzoom");
+			let got = N::Obj(got);
+			check_document("served", &want, &got, Some(&b.cov)).map_err(|f| Fail::new(f.sig, format!("{ctx}: {}", f.what)))?;
+			// zoom range and bounds consistent with the coverage
+			let N::Obj(g) = &got else { unreachable!() };
+			let zmin = g.get("minzoom").and_then(|v| v.as_f64());
+			let zmax = g.get("maxzoom").and_then(|v| v.as_f64());
+			let (Some(zmin), Some(zmax)) = (zmin, zmax) else {
+				fail!("served:zoom-missing", "{ctx}: served document has minzoom {:?}, maxzoom {:?}", g.get("minzoom").map(show), g.get("maxzoom").map(show));
+			};
+			// a document whose own range lies beyond the stored levels cannot be narrowed into them
+			let doc_min = want.get("minzoom").and_then(|v| v.as_f64()).unwrap_or(0.0);
+			let doc_max = want.get("maxzoom").and_then(|v| v.as_f64()).unwrap_or(255.0);
+			ensure_prop!(
+				zmin >= b.cov.zmin as f64 && zmin <= (b.cov.zmax as f64).max(doc_min) && zmax <= b.cov.zmax as f64 && zmax >= (b.cov.zmin as f64).min(doc_max),
+				"served:zoom-outside-coverage",
+				"{ctx}: served zoom range {zmin}..={zmax}, stored levels {}..={}, document {:?}..={:?}",
+				b.cov.zmin,
+				b.cov.zmax,
+				want.get("minzoom").map(show),
+				want.get("maxzoom").map(show)
+			);
+			let Some(o) = g.get("bounds").and_then(four) else {
+				fail!("served:bounds-missing", "{ctx}: served document has bounds {:?}", g.get("bounds").map(show));
+			};
+			// inside the hull of the stored levels' geographic boxes (containment in the document's
+			// bounds is part of check_document)
+			let hw = b.cov.boxes.iter().map(|g| g[0]).fold(f64::MAX, f64::min);
+			let hs = b.cov.boxes.iter().map(|g| g[1]).fold(f64::MAX, f64::min);
+			let he = b.cov.boxes.iter().map(|g| g[2]).fold(f64::MIN, f64::max);
+			let hn = b.cov.boxes.iter().map(|g| g[3]).fold(f64::MIN, f64::max);
+			let eps = 1e-9;
+			ensure_prop!(o[0] >= hw - eps && o[1] >= hs - eps && o[2] <= he + eps && o[3] <= hn + eps, "served:bounds-outside-coverage", "{ctx}: served bounds {o:?} are not contained in the stored coverage [{hw}, {hs}, {he}, {hn}]");
+		}
+		obs.label(format!("served:{}", b.what));
+		obs.label(match s.id_style % 4 {
+			3 => "id:derived",
+			_ => "id:explicit",
+		});
+		doc_labels(&b.info, &s.c.doc, obs);
+		obs.count("documents_served", 2);
+	}
+	obs.label(format!("sources={}", built.len()));
+	Ok(())
+}
+
+fn fixed_served() -> Vec<SCase> {
+	let mut sources = vec![];
+	for (i, c) in fixed_containers().into_iter().enumerate() {
+		if c.chain.is_some() {
+			continue;
+		}
+		sources.push(SSource { c, enc: if i % 3 == 2 { Some(i as u32) } else { None }, id_style: (i % 4) as u8, id: (i % 5) as u8, accept: (i % 4) as u8 });
+	}
+	sources.chunks(3).enumerate().map(|(i, s)| SCase { sources: s.to_vec(), fast: i % 2 == 1 }).collect()
+}
+
+fn server_phase(check: &mut Check) {
+	let workers = check.workers;
+	check.workers = workers.min(6);
+	let thorough = check.cases(0, 1) == 1;
+	let max_entries = if thorough { 16 } else { 8 };
+	let reg: Vec<SCase> = check.regression_cases("served");
+	check.enumerate("served-regressions", reg, false, oracle_served);
+	check.enumerate("served-fixed", fixed_served(), false, oracle_served);
+	check.phase("served", check.cases(120, 6000), || scase(max_entries), oracle_served);
+	check.workers = workers;
+}
 
 fn main() {
 	let mut check = Check::from_args(
 		"C17",
 		"exploration",
-		"(a) proptest JSON value trees (depth <= 6 quick / <= 16 thorough; strings over all of Unicode biased to quotes, backslashes, C0/C1 controls, DEL, U+2028/9, surrogate-adjacent, non-characters and non-BMP code points; finite f64 incl. +-0, subnormals, 1e+-308, integers beyond 2^53, exponents >= 21, tiny fractions) -> stringify -> parse_json_str and serde_json; non-trivial = the value contains a character that needs escaping (quote, backslash, control) or lies outside the BMP, or a number >= 1e21. (b) TileJSON documents of the type's domain (string/list/byte values under arbitrary keys, bounds, center, byte zooms, vector layers with fields) -> TileJSON::try_from -> as_string; (c) the same documents written through the versatiles/pmtiles/tar/directory writers x 3 compressions and read back, some converted once more into a second target; non-trivial for (b),(c) = document with >= 3 keys including a list value or vector_layers; distinct = distinct serialised cases",
+		"(a) proptest JSON value trees (depth <= 6 quick / <= 16 thorough; strings over all of Unicode biased to quotes, backslashes, C0/C1 controls, DEL, U+2028/9, surrogate-adjacent, non-characters and non-BMP code points; finite f64 incl. +-0, subnormals, 1e+-308, integers beyond 2^53, exponents >= 21, tiny fractions) -> stringify -> parse_json_str and serde_json; non-trivial = the value contains a character that needs escaping (quote, backslash, control) or lies outside the BMP, or a number >= 1e21. (b) TileJSON documents of the type's domain (string/list/byte values under arbitrary keys, bounds, center, byte zooms, vector layers with fields) -> TileJSON::try_from -> as_string; (c) the same documents written through the versatiles/pmtiles/tar/directory writers x 3 compressions and read back, some converted once more into a second target; (d) 1-3 such containers (repository writer or harness encoder) served by one `versatiles serve` process (best / --fast, four id syntaxes, four Accept-Encoding headers): GET /tiles/<id>/tiles.json and meta.json; non-trivial for (b),(c),(d) = document with >= 3 keys including a list value or vector_layers; distinct = distinct serialised cases",
 	);
 	check.assume("serde_json 1.0 with float_roundtrip is the standard JSON parser; numbers are compared through their f64 value (so -0 equals 0)");
 	check.assume("TileJSON documents enter as text spelled by serde_json (control characters as \\u00XX escapes, everything else literal UTF-8); vector layers are compared as a set keyed by id because the TileJSON type keys them by id; an empty vector_layers array, non-integer bytes and nested values under free keys are outside the type's domain and are not generated");
 	check.assume("coverage = the levels and tight tile boxes of the generated set; an edge of the returned bounds may lie anywhere between the document's edge and the nearest such edge of any stored level's geographic box (tolerance 1e-6 degrees), the document's own box is a hard limit (tolerance 1e-9)");
-	check.assume("the served tiles.json clause is not covered by this binary yet (server part)");
+	check.assume("served tiles.json / meta.json: observed at the `versatiles serve` binary built from the working tree over raw HTTP; the server sets `type`, `name`, `format` and `tiles` itself, so only the presence of these keys is compared; zoom range must lie within the stored levels (unless the document's own range lies beyond them), bounds within the document's bounds and the hull of the stored levels' geographic boxes (1e-9 degrees)");
 	vt::engine::watchdog(3600);
 
 	let thorough = check.cases(0, 1) == 1;
